@@ -203,3 +203,7 @@ Definition list_index (l : list Z) (v : Z) : option Z := list_index_from l v 0.
 
 (* torch.numel of a tensor modelled by its shape *)
 Definition py_numel (shape : list Z) : Z := fold_left Z.mul shape 1.
+
+(* `o in d` for a dict with string keys and an object that may be a string (any other object is simply not a key) *)
+Definition obj_in_dict {V} (d : list (string * V)) (o : obj) : bool :=
+  match o with OStr s => d_mem String.eqb d s | _ => false end.
